@@ -15,6 +15,7 @@
 package ggql
 
 import (
+	"math"
 	"strconv"
 )
 
@@ -41,9 +42,9 @@ func (*float64Scalar) CoerceIn(v interface{}) (interface{}, error) {
 	case nil:
 		// remains nil
 	case float64:
-		// ok as is
+		v, err = finite64(tv, v)
 	case float32:
-		v = float64(tv)
+		v, err = finite64(float64(tv), v)
 	case int32:
 		v = float64(tv)
 	case int64:
@@ -51,13 +52,24 @@ func (*float64Scalar) CoerceIn(v interface{}) (interface{}, error) {
 	case string:
 		var f float64
 		if f, err = strconv.ParseFloat(tv, 64); err == nil {
-			v = f
+			v, err = finite64(f, v)
+		} else {
+			v = nil
 		}
 	default:
 		v = nil
 		err = newCoerceErr(tv, "Float64")
 	}
 	return v, err
+}
+
+// finite64 returns the float if it is a finite number otherwise a coerce error
+// is returned.
+func finite64(f float64, v interface{}) (interface{}, error) {
+	if math.IsNaN(f) || math.IsInf(f, 0) {
+		return nil, newCoerceErr(v, "Float64")
+	}
+	return f, nil
 }
 
 // CoerceOut coerces a result value into a type for the scalar.
@@ -67,9 +79,9 @@ func (t *float64Scalar) CoerceOut(v interface{}) (interface{}, error) {
 	case nil:
 		// remains nil
 	case float32:
-		v = float64(tv)
+		v, err = finite64(float64(tv), v)
 	case float64:
-		// ok as is
+		v, err = finite64(tv, v)
 	case int:
 		v = float64(tv)
 	case int8:
@@ -93,7 +105,9 @@ func (t *float64Scalar) CoerceOut(v interface{}) (interface{}, error) {
 	case string:
 		var f float64
 		if f, err = strconv.ParseFloat(tv, 64); err == nil {
-			v = f
+			v, err = finite64(f, v)
+		} else {
+			v = nil
 		}
 	default:
 		v = nil
